@@ -31,7 +31,7 @@ rather than constructed (no permuted array is built; any `data'` with these entr
 Number laws used (hypotheses, not axioms): ONLY `Spec.LwSymm α m` — the generated Lance–Williams
 formula of `m` is symmetric in the two merged clusters — needed because the renumbering may swap
 which child is "a" and which is "b".  It is discharged
-  - for weighted / Ward / centroid / median by `CommLaws` (commutativity of `+`, and of
+  - for weighted / centroid / median by `CommLaws` (commutativity of `+`, and of
     `×` for centroid only), which is true of IEEE add/mul as operations on values (the only caveat
     is the payload of a NaN produced from two NaN operands);
   - for single / complete by `OrderLaws.asymm` + `LtTrichotomy` (incomparable ⇒ equal).
@@ -45,7 +45,12 @@ which child is "a" and which is "b".  It is discharged
     single).  Before the fix `CommLaws` alone sufficed; with the clamp `CommLaws → LwSymm α .average`
     is no longer provable for an abstract `Num` (the two `least`s of order-equivalent, non-identical
     arguments such as `±0` are different values), so average moved to the second group — same
-    proviso for floats as for single/complete.
+    proviso for floats as for single/complete;
+  - for Ward by ALL THREE, for the same reason: `CommLaws.add_comm` for the quotient (outer sum of
+    the numerator, `sa + sb` of the denominator), `OrderLaws.asymm` + `LtTrichotomy` for the guarded
+    clamp `least := if a < b then a else b; if !(least < c) && value < least then least else value`
+    that the SECOND `fix:` commit of the crate added to `method::ward`.  Before that fix `CommLaws`
+    alone sufficed (Ward was in the first group); same proviso for floats as for single/complete.
 No field law (associativity, distributivity, exactness of rounding, …) is used, and neither is any
 well-formedness of `steps` beyond what `GreedyValid` says.
 
@@ -126,14 +131,13 @@ theorem C11_spec_unique' {n : Nat} {π ρ : Nat → Nat} {m : Method} {data data
 
 /-- Which laws give `LwSymm` for which generated formula. -/
 theorem C11_lwSymm (α : Type) [Num α] :
-    (CommLaws α → LwSymm α .weighted ∧ LwSymm α .ward ∧
-      LwSymm α .centroid ∧ LwSymm α .median) ∧
+    (CommLaws α → LwSymm α .weighted ∧ LwSymm α .centroid ∧ LwSymm α .median) ∧
     (OrderLaws α → LtTrichotomy α → LwSymm α .single ∧ LwSymm α .complete) ∧
-    (OrderLaws α → LtTrichotomy α → CommLaws α → LwSymm α .average) ∧
+    (OrderLaws α → LtTrichotomy α → CommLaws α → LwSymm α .average ∧ LwSymm α .ward) ∧
     (OrderLaws α → LtTrichotomy α → CommLaws α → ∀ m : Method, LwSymm α m) :=
-  ⟨fun C => ⟨lwSymm_weighted C, lwSymm_ward C, lwSymm_centroid C, lwSymm_median C⟩,
+  ⟨fun C => ⟨lwSymm_weighted C, lwSymm_centroid C, lwSymm_median C⟩,
    fun L T => ⟨lwSymm_single L T, lwSymm_complete L T⟩,
-   fun L T C => lwSymm_average L T C,
+   fun L T C => ⟨lwSymm_average L T C, lwSymm_ward L T C⟩,
    fun L T C m => lwSymm_all L T C m⟩
 
 /-- `C11_spec` with the number laws plugged in (all seven methods). -/
